@@ -399,6 +399,11 @@ def run(ctx):
         sc = scns[r["id"]]
         ctx.count()
         ctx.nontriv(json.dumps(sc, sort_keys=True))
+        if r.get("sig") == "TOOL" and sc["state"] == "open-fails":
+            # the state after a failed Open is outside the property (a note at most): a prelude that did not go as scripted there
+            # must not keep the rest of the check from being judged
+            ctx.notes.setdefault("after_a_failed_open_outside_the_property", []).append({"scenario": sc, "observed": "prelude: " + str(r.get("detail"))[:200]})
+            continue
         if r.get("toolerror") or r.get("sig") == "TOOL":
             raise ToolError(r.get("toolerror") or r.get("detail"))
         if r.get("died"):
